@@ -25,9 +25,15 @@ const (
 )
 
 var (
-	ErrNotExist = os.ErrNotExist
-	ErrExist    = os.ErrExist
+	ErrNotExist   = os.ErrNotExist
+	ErrExist      = os.ErrExist
+	ErrInvalid    = os.ErrInvalid
+	ErrPermission = os.ErrPermission
+	ErrClosed     = os.ErrClosed
 )
+
+type DirEntry = fs.DirEntry
+type PathError = fs.PathError
 
 // file mode bits (the redirected file refers to them as os.ModeXxx)
 const (
@@ -118,6 +124,36 @@ func (i info) Mode() fs.FileMode {
 func (i info) ModTime() time.Time { return time.Time{} }
 func (i info) IsDir() bool        { return i.dir }
 func (i info) Sys() any           { return nil }
+
+// ReadDir lists a directory of the simulated disk, sorted by name like os.ReadDir.
+func ReadDir(dir string) ([]DirEntry, error) {
+	infos, err := ReadDirInfo(dir)
+	if err != nil {
+		return nil, err
+	}
+	out := make([]DirEntry, 0, len(infos))
+	for _, i := range infos {
+		out = append(out, fs.FileInfoToDirEntry(i))
+	}
+	return out, nil
+}
+
+func Mkdir(p string, perm FileMode) error {
+	if simfs.Cur.Exists(p) {
+		return &fs.PathError{Op: "mkdir", Path: p, Err: os.ErrExist}
+	}
+	return simfs.Cur.MkdirAll(p)
+}
+
+// Truncate changes the size of a file through an ordinary handle, so that it is one logged disk operation.
+func Truncate(name string, size int64) error {
+	f, err := OpenFile(name, O_WRONLY, 0)
+	if err != nil {
+		return err
+	}
+	defer f.Close()
+	return f.Truncate(size)
+}
 
 // ReadDirInfo lists a directory (used by the ioutil shim).
 func ReadDirInfo(dir string) ([]fs.FileInfo, error) {
